@@ -30,9 +30,11 @@ set +e
 EXCL=$(python3 - <<PY
 import json
 k=json.load(open('/verif/known_findings.json'))
-print(",".join(sorted(set(x for f in k.get('findings',[]) for x in f['keys']))))
+print(",".join(sorted(set(x for f in k.get('findings',[]) for x in f['keys'] if f['property'] != 'C09'))))
 PY
 )
+# extra exclusion keys (comma separated) can be given in the environment: EXTRA_EXCL=k1,k2
+if [ -n "$EXTRA_EXCL" ]; then EXCL="${EXCL:+$EXCL,}$EXTRA_EXCL"; fi
 RC_PARAMS="seed=$SEED max_success=$CASES max_size=100" OMP_NUM_THREADS=1 timeout 900 "$T/$H" --sub "$SUB" --out "$T/out" ${EXCL:+--exclude "$EXCL"} > "$T/log" 2>&1
 rc=$?
 if [ $rc -eq 0 ]; then echo "MUTANT-SURVIVED ($CASES cases, sub $SUB)"; else
